@@ -128,9 +128,10 @@ regenerated from the current source on every run, are the ones the model was wri
 any edit to one of them makes this obligation fail and starts a search for a failing input. -/
 theorem code_matches_model :
     Gen.Filters.compressDo =
-      ["if f.cfg == nil || f.cfg.GetRedisOption() == nil || f.cfg.GetRedisOption().GetCompression() == nil { return Continue }",
-      "if _, ok := wkSkipCheckCmdsInDecps[cmd]; !ok { req.RegisterHook(func(request *simpleRequest) { f.Decompress(request.resp) }) }",
+      ["if f.cfg == nil { return Continue }",
       "cfg := f.cfg.GetRedisOption().GetCompression()",
+      "if cfg == nil { return Continue }",
+      "if _, ok := wkSkipCheckCmdsInDecps[cmd]; !ok { req.RegisterHook(func(request *simpleRequest) { f.Decompress(request.resp) }) }",
       "if !cfg.Enable { return Continue }",
       "if _, ok := bannedCmdsInCps[cmd]; ok { errStr := fmt.Sprintf(\"ERR command '%s' is disabled in compress mode\", cmd) req.SetResponse(newError(errStr)) return Stop }",
       "f.Compress(cfg, cmd, req.body)",
